@@ -43,6 +43,9 @@ type inst struct {
 	CQT  imat    `json:"CQT"`
 	CR   imat    `json:"CR"`
 	Qidx []int   `json:"qidx"`
+	Deep bool    `json:"deep"`
+	PI   imat    `json:"PI"`
+	AI   imat    `json:"AI"`
 	Nf   int     `json:"nf"`
 	Jin  []int   `json:"jin"`
 	Jpvt []int   `json:"jpvt"`
